@@ -3,12 +3,13 @@ C11T — the range functions of C11 *as regenerated from werkzeug's source* by `
 (`Gen/PyFns_Range.lean`, rewritten on every check run) are equal, for all inputs, to the
 hand-written model functions of `Model/Conditional.lean` that the C11 theorems are about.
 A change of the Python source changes the generated definition and breaks these obligations.
-Property theorems only (helper lemmas live in Lemmas/PyFns_Range.lean).
+Property theorems only (helper lemmas live in Lemmas/PyFns_Range.lean, Lemmas/PyFns_Prelude.lean).
 -/
 import WzVerif.Gen.PyFns_Range
 import WzVerif.Model.Conditional
+import WzVerif.Lemmas.PyFns_Range
 namespace Wz.Props.C11T
-open Wz
+open Wz Wz.Pre Wz.PyFnsRange
 
 /-- `werkzeug.http.is_byte_range_valid`, as translated from the current source, computes exactly the
 model's `isByteRangeValid` for every `start`, `stop`, `length` (each an unbounded int or `None`).
@@ -41,5 +42,152 @@ theorem range_for_length_eq (units : List Char) (ranges : List (Int × Option In
 
 example : (Gen.PyFns_Range.range_for_length "bytes".toList [(-3, none)] (some 10)).toOption
     = some (some (7, 10)) := by decide
+
+/-- The translation maps `_plain_int_re.fullmatch` to the prelude's hand-written matcher for
+`-?\d+` under `re.ASCII`; this pins the pattern source and flags of the live regex object. -/
+theorem plain_int_re_pinned : Gen.PyFns_Internal.plainIntRe = ("-?\\d+", 256) := by decide
+
+/-- `_plain_int`, as translated from the current source, equals the prelude's `plainInt` for every
+text (see Props/C09T): the only exception is `ValueError`, and `int()` is only reached with a text of
+the form `-?[0-9]+`. -/
+theorem plain_int_eq (v : List Char) : Gen.PyFns_Internal.plain_int v = Pre.plainInt v := by
+  unfold Gen.PyFns_Internal.plain_int Pre.plainInt Pre.plainIntReFullmatch Pre.pyIntPlain Pre.strip
+  cases h : isPlainIntText (Py.strip v) <;> simp [h]
+
+/-- The validation loop of `Range.__init__`, as translated from the current source, runs to its end
+exactly when every pair is open-ended or satisfies `0 ≤ begin < end` (`validB`), and raises
+`ValueError` otherwise. -/
+theorem range_init_loop_eq (rs : List (Int × Option Int)) :
+    Gen.PyFns_Range.range_init.loop1 rs
+      = if rs.all validB then .fall () else .ret (.error "ValueError") := by
+  induction rs with
+  | nil => rfl
+  | cons p t ih =>
+    unfold Gen.PyFns_Range.range_init.loop1
+    obtain ⟨b, e⟩ := p
+    cases e with
+    | none => simp only [ih, List.all_cons, validB, Bool.true_and]
+    | some e =>
+      by_cases h : (b < 0 ∨ b ≥ e)
+      · have h2 : ¬ (0 ≤ b ∧ b < e) := by omega
+        simp [h, validB, h2]
+      · have h2 : (0 ≤ b ∧ b < e) := by omega
+        have h3 : (decide (b < 0) || decide (b ≥ e)) = false := by
+          simp only [Bool.or_eq_false_iff, decide_eq_false_iff_not]; omega
+        have h4 : (decide (0 ≤ b) && decide (b < e)) = true := by
+          simp only [Bool.and_eq_true, decide_eq_true_eq]; exact h2
+        simp only [h3, h4, ih, List.all_cons, validB, Bool.true_and, Bool.false_eq_true, if_false]
+
+/-- `Range(units, ranges)`, as translated from the current source (`Range.__init__`: the two
+attribute stores and the validation loop), returns the object - the pair of its attributes - for a
+valid list and raises `ValueError` for any other. -/
+theorem range_init_eq (u : List Char) (rs : List (Int × Option Int)) :
+    Gen.PyFns_Range.range_init u rs = if rs.all validB then .ok (u, rs) else .error "ValueError" := by
+  unfold Gen.PyFns_Range.range_init
+  rw [range_init_loop_eq]
+  cases rs.all validB <;> simp
+
+/-- in particular every valid list is accepted -/
+theorem range_init_ok (u : List Char) (rs : List (Int × Option Int)) (h : AllValid rs) :
+    Gen.PyFns_Range.range_init u rs = .ok (u, rs) := by
+  rw [range_init_eq, (all_validB_iff rs).mpr h]; rfl
+
+/-- The `for item in rng.split(",")` loop of `parse_range_header`, as translated from the current
+source (strip, the `-` tests, the suffix / `first-last` / `first-` forms with their `_plain_int`
+calls and `try … except ValueError: return None`, the ordering checks against `last_end`, the append),
+does what the model's `parseRangeItems` does, for every list of items and every loop state:
+`summ` reads off "returned None" / "fell through with these ranges" (an exception or any other
+return value has no summary). -/
+theorem parse_range_header_loop_eq (items : List (List Char)) : ∀ (le : Int) (ranges : R),
+    summ (Gen.PyFns_Range.parse_range_header.loop1 items le ranges)
+      = some (Cond.parseRangeItems items le ranges.reverse) := by
+  induction items with
+  | nil => intro le ranges; simp [Gen.PyFns_Range.parse_range_header.loop1, Cond.parseRangeItems, summ]
+  | cons item rest ih =>
+    intro le ranges
+    unfold Gen.PyFns_Range.parse_range_header.loop1 Cond.parseRangeItems
+    simp only [Pre.strip, contains_singleton, startswith_singleton_head, plain_int_eq, cond_plainInt_eq]
+    generalize Py.strip item = it
+    have summ_ite : ∀ (c : Prop) [Decidable c] (a b : Pre.Loop (Except String (Option (List Char × R))) (Int × R)),
+        summ (if c then a else b) = if c then summ a else summ b := by
+      intro c _ a b; split <;> rfl
+    by_cases hm : '-' ∈ it
+    · have hc : it.contains '-' = true := by simpa using hm
+      simp only [hc, Bool.not_true, Bool.false_eq_true, if_false, splitOnce_singleton_mem it '-' hm]
+      by_cases hh : it.head? = some '-'
+      · simp only [hh, beq_self_eq_true, if_true]
+        by_cases hl : le < 0
+        · simp [hl, summ]
+        · simp only [hl, decide_false, Bool.false_eq_true, if_false]
+          cases plainInt it with
+          | error e => simp [summ, Except.toOption]
+          | ok b =>
+            by_cases hb : b = 0
+            · simp [hb, summ, Except.toOption]
+            · simp [hb, summ_ite, ih, Except.toOption]
+      · have hh' : (it.head? == some '-') = false := by simpa using hh
+        simp only [hh', Bool.false_eq_true, if_false]
+        cases plainInt (Py.strip (List.takeWhile (fun x => x != '-') it)) with
+        | error e => simp [summ, Except.toOption]
+        | ok b =>
+          by_cases hl : (b < le ∨ le < 0)
+          · simp [hl, summ, Except.toOption]
+          · by_cases he : Py.strip (List.dropWhile (fun x => x != '-') it).tail = []
+            · simp [hl, he, summ_ite, ih, Except.toOption]
+            · cases hp : plainInt (Py.strip (List.dropWhile (fun x => x != '-') it).tail) with
+              | error e => simp [hl, he, hp, summ, Except.toOption]
+              | ok e =>
+                by_cases hbe : e + 1 ≤ b
+                · simp [hl, he, hp, hbe, summ, Except.toOption]
+                · simp [hl, he, hp, hbe, summ_ite, ih, Except.toOption]
+    · simp [hm, summ]
+
+/-- `parse_range_header(value)`, as translated from the current source, never raises (the
+two-way unpacking of `value.split("=", 1)` happens only when `=` occurs; every range list the loop
+builds passes the validation of `Range.__init__`) and returns exactly the model's
+`parseRangeHeader` (`None`, or the units and the list of half-open ranges), for every header value
+including `None`. -/
+theorem parse_range_header_eq (value : Option (List Char)) (mi : Bool) :
+    Gen.PyFns_Range.parse_range_header value mi
+      = .ok ((Cond.parseRangeHeader value).map fun r => (r.units, r.ranges)) := by
+  unfold Gen.PyFns_Range.parse_range_header Cond.parseRangeHeader
+  cases value with
+  | none => rfl
+  | some v =>
+    simp only [contains_singleton]
+    by_cases hm : '=' ∈ v
+    · have hc : v.contains '=' = true := by simpa using hm
+      by_cases he : v.isEmpty = true
+      · simp [he]
+      · simp only [he, hc, Bool.not_true, Bool.or_false, Bool.false_eq_true, if_false,
+          splitOnce_singleton_mem v '=' hm, splitOn_singleton]
+        have hl := parse_range_header_loop_eq (Cond.splitOnChar ',' (List.drop 1 (List.dropWhile (fun x => x != '=') v)) []) 0 []
+        simp only [List.reverse_nil] at hl
+        cases hp : Cond.parseRangeItems (Cond.splitOnChar ',' (List.drop 1 (List.dropWhile (fun x => x != '=') v)) []) 0 [] with
+        | none =>
+          rw [hp] at hl
+          cases hL : Gen.PyFns_Range.parse_range_header.loop1 (Cond.splitOnChar ',' (List.drop 1 (List.dropWhile (fun x => x != '=') v)) []) 0 [] with
+          | ret r =>
+            rw [hL] at hl
+            match r, hl with
+            | .ok none, _ => simp
+          | fall st => rw [hL] at hl; obtain ⟨a, b⟩ := st; simp [summ] at hl
+        | some rs =>
+          rw [hp] at hl
+          have hv : AllValid rs := parseRangeItems_valid _ _ _ _ hp (by intro p hp; simp at hp)
+          cases hL : Gen.PyFns_Range.parse_range_header.loop1 (Cond.splitOnChar ',' (List.drop 1 (List.dropWhile (fun x => x != '=') v)) []) 0 [] with
+          | ret r =>
+            rw [hL] at hl
+            match r, hl with
+            | .ok none, h => simp [summ] at h
+          | fall st =>
+            rw [hL] at hl; obtain ⟨a, b⟩ := st
+            simp only [summ, Option.some.injEq] at hl
+            subst hl
+            simp [range_init_ok _ _ hv, Pre.lower, Pre.strip, Cond.lowerA]
+    · simp [hm]
+
+example : (Gen.PyFns_Range.parse_range_header (some "Bytes = 0-1, 5-".toList) true).toOption
+    = some (some ("bytes ".toList.dropLast, [(0, some 2), (5, none)])) := by decide
 
 end Wz.Props.C11T
